@@ -36,3 +36,8 @@ Definition wfb_obs (tol : Qc) (st equ : list (triple QIops)) (coords : option (l
       (* merged wavenumbers are amplitude-weighted means: the centre is 0 up to rounding (1e-17 observed) *)
       forallb (fun u => qi_close tol (u, Q2Qc 0) (Q2Qc 0, Q2Qc 0)) (nth ((n2 - 1) / 2) cs [])
   end.
+
+(* hypotheses of C08_exchange_keeps_symmetry on the matrices of a real X operator (its [mat] array, channels
+   F+, F-, Z flattened in the same order): the F- matrix is the conjugate of the F+ matrix, the Z matrix is real *)
+Definition xmat_sym_ok (tol : Qc) (m0 m1 m2 : list QI) : bool :=
+  all2b (qi_close tol) m1 (map qi_conj m0) && all2b (qi_close tol) m2 (map qi_conj m2).
